@@ -16,6 +16,7 @@ CONFIGS = {
     "K17": ["-std=c++17"],
     "K17A": ["-std=c++17", "-DFIXEDMATH_ENABLE_SQRT_ABACUS_ALGO"],
     "K20": ["-std=c++20"],
+    "K23": ["-std=c++2b"],
     # K20 with std::is_constant_evaluated() forced to true: the arms a constant evaluation takes, compiled as ordinary code
     # (libstdc++ implements std::is_constant_evaluated() as `return __builtin_is_constant_evaluated();`)
     "K20C": ["-std=c++20", "-D__builtin_is_constant_evaluated()=true"],
